@@ -11,6 +11,7 @@ from the confirmed tree, so the confirmed tree itself is always analysed as writ
   (c) tuple assignment         `a, b = x, y`               ->  `a = x` ; `b = y`              (no target read on the right,
                                                                                                 later values cannot raise
                                                                                                 unless all targets are locals)
+  (k) expression spellings     `struct.unpack(F, s)[-1]` (one field) -> `[0]`;  `range(0, n)` -> `range(n)`
   (d) one-field unpacking      `(a,) = struct.unpack(F, s)`->  `a = struct.unpack(F, s)[0]`   (F a literal one-field format)
   (e) in-memory stream         `with BytesIO() as f: B`    ->  `f = BytesIO()` ; B
   (f) display ending in *name  `(a, b, c) = (x, *rest)`     ->  `a = x` ; `(b, c) = rest`
@@ -173,6 +174,23 @@ def _is_unpack_call(e):
             and isinstance(e.func.value, ast.Name) and e.func.value.id == 'struct' and e.args and _one_field_format(e.args[0]))
 
 
+def _own_nodes(s):
+    """the expressions of a statement itself: not the statements nested in it, not nested functions"""
+    stack = []
+    for f, v in ast.iter_fields(s):
+        if f in ('body', 'orelse', 'finalbody', 'handlers'):
+            continue
+        for x in (v if isinstance(v, list) else [v]):
+            if isinstance(x, ast.AST):
+                stack.append(x)
+    while stack:
+        n = stack.pop()
+        if isinstance(n, (ast.FunctionDef, ast.AsyncFunctionDef, ast.ClassDef, ast.Lambda)):
+            continue
+        yield n
+        stack.extend(ast.iter_child_nodes(n))
+
+
 def _is_bytesio(e):
     if not (isinstance(e, ast.Call) and not e.args and not e.keywords):
         return False
@@ -185,9 +203,10 @@ _VALUE_FIELDS = {ast.If: 'test', ast.Assign: 'value', ast.AugAssign: 'value', as
 
 
 class Lower(object):
-    def __init__(self, log=None):
+    def __init__(self, log=None, confirmed=None):
         self.log = log or (lambda n, t: None)
         self.count = 0
+        self.confirmed = confirmed or (lambda s: False)  # is this statement, as written, one of the confirmed function?
 
     def run(self, fnode):
         for _ in range(12):
@@ -345,6 +364,21 @@ class Lower(object):
                     x.ctx = ast.Store()
             self.log(s, '`%s.extend(<generator>)` read as the loop that appends' % s.value.func.value.id)
             return [loop]
+        # (k) spellings inside expressions: the last item of a one-field unpack is its first; range(0, n) is range(n)
+        hit = []
+        for x in (_own_nodes(s) if not self.confirmed(s) else ()):
+            if isinstance(x, ast.Subscript) and _is_unpack_call(x.value) and isinstance(x.slice, ast.UnaryOp) and isinstance(x.slice.op, ast.USub) \
+                    and isinstance(x.slice.operand, ast.Constant) and x.slice.operand.value == 1 and type(x.slice.operand.value) is int:
+                x.slice = ast.copy_location(ast.Constant(value=0), x.slice)
+                hit.append('`[-1]` of a one-field struct read as `[0]`')
+            elif isinstance(x, ast.Call) and isinstance(x.func, ast.Name) and x.func.id == 'range' and len(x.args) == 2 and not x.keywords \
+                    and isinstance(x.args[0], ast.Constant) and x.args[0].value == 0 and type(x.args[0].value) is int:
+                x.args = [x.args[1]]
+                hit.append('`range(0, n)` read as `range(n)`')
+        if hit:
+            for h_ in hit:
+                self.log(s, h_)
+            return [s]
         # (d) one-field struct unpacking by a one-element target
         if (isinstance(s, ast.Assign) and len(s.targets) == 1 and isinstance(s.targets[0], (ast.Tuple, ast.List)) and len(s.targets[0].elts) == 1
                 and not isinstance(s.targets[0].elts[0], ast.Starred) and _is_unpack_call(s.value)):
